@@ -118,7 +118,18 @@ Section Node.
     let pv (f : hdr -> N) := match prev with Some p => f p | None => 0 end in
     let unpaid := if has_gt then 0 else pv h_total_fees in
     (* self.treasury is still 0 when the consensus values are generated *)
-    do c <- run_cv md st (cv_input cf st id ts 0 txs bf_calc orc);
+    do c0 <- run_cv md st (cv_input cf st id ts 0 txs bf_calc orc);
+    (* pooled transactions that spend an input of one of the rebroadcasts are left out (golden
+       tickets are kept) and, if something was left out, the consensus values are computed again *)
+    let rb_inputs := flat_map (fun r => filter (fun s => 0 <? s_amt s) (t_from r)) (c_rebroadcasts c0) in
+    let clashes (t : tx) : bool :=
+      negb (t_ty t =? TGolden) &&
+      existsb (fun s => (0 <? s_amt s) && existsb (slip_eqb s) rb_inputs) (t_from t) in
+    let kept := filter (fun t => negb (clashes t)) txs in
+    do c <- (if existsb clashes txs
+             then run_cv md st (cv_input cf st id ts 0 kept bf_calc orc)
+             else Ok c0);
+    let txs := kept in
     do total_fees <- add md P_TOTAL_FEES (c_fees_new c) (c_fees_atr c);
     do t1 <- add md 2101 (pv h_treasury) (c_pay_treasury c);
     do treasury <- sub md 2102 t1 (c_pay_atr c);
